@@ -130,6 +130,7 @@ void prop_gen(Ctx &c) {
 		if (std::get<9>(t) == 0 && !e.rdates.empty() && std::get<8>(t) >= 30) e.rrule.clear();   // RDATE-only event
 		return e; });
 	rc::check("C02", [&]() {
+		if (c.shrink_exhausted()) return;
 		Ev g = *genEv; Ev e = g;
 		// baseline stream of the rule to resolve indices into real instants
 		std::vector<sc::Occ> occ;
